@@ -322,6 +322,9 @@ def make_builtins(I):
             I.raise_('TypeError', 'unhashable type')
 
     def _iter(v):
+        from .models.arrays import SArr
+        if isinstance(v, SArr) and not isinstance(v.length, int):
+            return v            # symbolic length: consumed by comprehensions / invariant loops
         return PyIterator(I.iterate(v))
 
     def _next(it, *default):
